@@ -329,6 +329,238 @@ def _formula_worker(cases):
     return res.pack()
 
 
+
+# ------------------------------------------------------------------------------------------
+# scale / center / standardize on multi-column inputs (2-D arrays, data frames, dict- / 2-D-valued inner transforms)
+# ------------------------------------------------------------------------------------------
+def _column_failures(x, y, r, r2, centered, scaled, ddof):
+    """per-column contract: x training column, y follow-up column, r / r2 the transform's outputs for them.
+    Returns [(clause, tag, detail)]; the same clauses and tolerances as for single vectors."""
+    out = []
+    n = len(x)
+    m, sd = stats(x, ddof)
+    if not (sd > 0) or not math.isfinite(sd):
+        return out
+    big = max(abs(v) for v in x)
+    tol = 16 * n * EPS * (big / sd + 1)
+    if centered:
+        mr = math.fsum(r) / n
+        if not abs(mr) <= tol * (1 if scaled else sd):
+            out.append(("C13.scale.train-zero-mean", "", f"column mean {mr!r}"))
+    if centered and scaled:
+        mr = math.fsum(r) / n
+        s_ = math.sqrt(math.fsum((v - mr) ** 2 for v in r) / (n - ddof))
+        if not abs(s_ - 1) <= tol:
+            out.append(("C13.scale.train-unit-std", f":ddof={ddof}", f"column std(ddof={ddof}) = {s_!r}"))
+    if centered or not scaled:
+        exp = [((v - m) if centered else v) / (sd if (scaled and centered) else 1.0) for v in x]
+        if not all(abs(a - b) <= tol * (1 + abs(b)) * (1 if scaled else big) for a, b in zip(r, exp)):
+            out.append(("C13.scale.train-values", "", f"column values {list(map(float, r[:3]))} expected {exp[:3]}"))
+        exp2 = [((v - m) if centered else v) / (sd if scaled else 1.0) for v in y]
+        big2 = max([big] + [abs(v) for v in y])
+        if not all(abs(a - b) <= tol * (1 + abs(b)) * (1 if scaled else big2) for a, b in zip(r2, exp2)):
+            out.append(("C13.scale.replay-recorded-stats", "", f"replayed {list(map(float, r2[:3]))} expected {exp2[:3]}"))
+    else:
+        i0 = int(np.argmax(np.abs(x)))
+        if r[i0] != 0:
+            k = x[i0] / r[i0]
+            if not all(abs(a - v / k) <= 1e-12 * abs(v / k) for a, v in zip(r2, y)):
+                out.append(("C13.scale.replay-recorded-stats", "", "replay uses a different divisor than the fit"))
+    return out
+
+
+MULTI_DIRECT_CODE = """
+import math, numpy as np, pandas as pd
+from formulaic.transforms import scale, center
+from formulaic.transforms.patsy_compat import standardize
+EPS = 2.220446049250313e-16
+{helpers}
+X = np.array({X})          # training matrix, one variable per column
+Y = np.array({Y})          # follow-up rows
+fn, kwargs = {fn}, {kwargs}
+ddof, centered, scaled = {ddof}, {centered}, {scaled}
+wrap = {wrap}
+state = {{}}
+R = np.asarray(fn(wrap(X), _state=state, **kwargs), dtype=float)
+R2 = np.asarray(fn(wrap(Y), _state=state, **kwargs), dtype=float)
+assert R.shape == X.shape and R2.shape == Y.shape, (R.shape, R2.shape)
+bad = []
+for j in range(X.shape[1]):
+    bad += [(j, c, d) for c, t, d in _column_failures(X[:, j].tolist(), Y[:, j].tolist(), R[:, j], R2[:, j], centered, scaled, ddof)
+            if c == {clause!r}]
+assert not bad, bad
+"""
+
+MULTI_FORMULA_CODE = """
+import math, numpy as np, pandas as pd
+from formulaic import model_matrix
+EPS = 2.220446049250313e-16
+{helpers}
+x, x_new = {x}, {x_new}
+ctx_train = {{"X": np.array({X}), "pdX": pd.DataFrame(np.array({X}))}}
+ctx_new = {{"X": np.array({Y}), "pdX": pd.DataFrame(np.array({Y}))}}
+inner, outer = {inner!r}, {outer!r}
+ddof, centered, scaled = {ddof}, {centered}, {scaled}
+df, df_new = pd.DataFrame({{"x": x}}), pd.DataFrame({{"x": x_new}})
+# the columns the outer transform receives: the inner expression materialized on its own (and replayed on the new rows)
+if inner in ("X", "pdX"):
+    I, I2 = ctx_train["X"], ctx_new["X"]
+else:
+    mi = model_matrix(inner + " - 1", df, context=ctx_train)
+    I = np.asarray(mi, dtype=float)
+    I2 = np.asarray(mi.model_spec.get_model_matrix(df_new, context=ctx_new), dtype=float)
+mo = model_matrix(outer.format(inner) + " - 1", df, context=ctx_train)
+R = np.asarray(mo, dtype=float)
+R2 = np.asarray(mo.model_spec.get_model_matrix(df_new, context=ctx_new), dtype=float)
+assert R.shape == I.shape and R2.shape == I2.shape, (R.shape, I.shape)
+bad = []
+for j in range(I.shape[1]):
+    bad += [(mo.columns[j], c, d) for c, t, d in _column_failures(I[:, j].tolist(), I2[:, j].tolist(), R[:, j], R2[:, j], centered, scaled, ddof)
+            if c == {clause!r}]
+assert not bad, bad
+"""
+
+OUTERS = [("scale({})", True, True, 1), ("center({})", True, False, 1), ("standardize({})", True, True, 0),
+          ("scale({}, ddof=0)", True, True, 0), ("scale({}, scale=False)", True, False, 1),
+          ("scale({}, center=False)", False, True, 1)]
+INNERS = ["X", "pdX", "poly(x, 2, raw=True)", "poly(x, 3)", "bs(x, df=4)", "bs(x, df=3, degree=1, include_intercept=True)",
+          "cr(x, df=3)", "cc(x, df=3)"]
+
+
+def _gen_matrix(rng, n, k):
+    cols = []
+    for _ in range(k):
+        v, _m = gen_vector(rng, n)
+        if len(set(v.tolist())) < 2:
+            v[0] = v[0] + abs(v[0]) + 1e-6
+        cols.append(v)
+    return np.column_stack(cols)
+
+
+def _multi_cases(rng, n_direct, n_formula):
+    cases = []
+    for i in range(n_direct):
+        n, k = rng.choice([2, 3, 5, 12, 50, rng.randint(2, 50)]), rng.choice([2, 2, 3, 4])
+        X = _gen_matrix(rng, n, k)
+        Y = np.column_stack([gen_vector(rng, 4)[0] * 0 + X[rng.randrange(n), j] + gen_vector(rng, 4)[0] for j in range(k)])
+        fn = rng.choice(["scale", "scale", "center", "standardize"])
+        if fn == "center":
+            centered, scaled, ddof = True, False, 1
+        elif fn == "standardize":
+            centered, scaled, ddof = True, rng.choice([True, True, False]), 0
+        else:
+            centered, scaled = rng.choice([(True, True), (True, True), (True, False), (False, True)])
+            ddof = rng.choice([0, 1, 1, 2]) if n > 2 else rng.choice([0, 1])
+        cases.append({"kind": "direct", "X": X.tolist(), "Y": Y.tolist(), "fn": fn, "centered": centered, "scaled": scaled,
+                      "ddof": ddof, "wrap": rng.choice(["ndarray", "fortran", "dataframe"])})
+    for i in range(n_formula):
+        n = rng.choice([8, 12, 20, 50])
+        x = [rng.uniform(-3, 3) for _ in range(n)]
+        lo, hi = min(x), max(x)
+        x_new = [rng.uniform(lo, hi) for _ in range(5)] + [x[0]]
+        X = _gen_matrix(rng, n, rng.choice([2, 3]))
+        Y = X[[rng.randrange(n) for _ in range(len(x_new))]] * 1.0 + 0.5 * X.std(axis=0)
+        outer, centered, scaled, ddof = OUTERS[i % len(OUTERS)]
+        inner = INNERS[(i // len(OUTERS)) % len(INNERS)]
+        cases.append({"kind": "formula", "x": x, "x_new": x_new, "X": X.tolist(), "Y": Y.tolist(), "outer": outer,
+                      "inner": inner, "centered": centered, "scaled": scaled, "ddof": ddof})
+    return cases
+
+
+def _multi_kwargs(c):
+    if c["fn"] == "center":
+        return {}
+    if c["fn"] == "standardize":
+        return {"center": c["centered"], "rescale": c["scaled"]}
+    return {"center": c["centered"], "scale": c["scaled"], "ddof": c["ddof"]}
+
+
+_WRAPS = {"ndarray": "np.array", "fortran": "np.asfortranarray", "dataframe": "pd.DataFrame"}
+
+
+def _multi_worker(cases):
+    from formulaic import model_matrix
+    from formulaic.transforms import center, scale
+    from formulaic.transforms.patsy_compat import standardize
+
+    fns = {"scale": scale, "center": center, "standardize": standardize}
+    wraps = {"ndarray": np.array, "fortran": np.asfortranarray, "dataframe": pd.DataFrame}
+    helpers = inspect.getsource(stats) + "\n" + inspect.getsource(_column_failures)
+    res = WorkResult()
+    for c in cases:
+        centered, scaled, ddof = c["centered"], c["scaled"], c["ddof"]
+        if c["kind"] == "direct":
+            X, Y = np.array(c["X"]), np.array(c["Y"])
+            kwargs = _multi_kwargs(c)
+            key = ("multi-direct", c["fn"], centered, scaled, ddof, c["wrap"], repr(c["X"]))
+            res.case(key, True, {"fn": c["fn"], "kwargs": kwargs, "shape": list(X.shape), "container": c["wrap"]})
+            base_cls = f"multi-column:{c['fn']}:center={centered}:scale={scaled}"
+
+            def wit(clause):
+                return {"fn": c["fn"], "kwargs": kwargs, "X": c["X"], "Y": c["Y"], "container": c["wrap"],
+                        "code": code(MULTI_DIRECT_CODE.format(helpers=helpers, X=repr(c["X"]), Y=repr(c["Y"]), fn=c["fn"],
+                                                              kwargs=kwargs, ddof=ddof, centered=centered, scaled=scaled,
+                                                              wrap=_WRAPS[c["wrap"]], clause=clause))}
+            try:
+                with quiet_numpy():
+                    st = {}
+                    R = np.asarray(fns[c["fn"]](wraps[c["wrap"]](X), _state=st, **kwargs), dtype=float)
+                    R2 = np.asarray(fns[c["fn"]](wraps[c["wrap"]](Y), _state=st, **kwargs), dtype=float)
+            except Exception as e:  # noqa: BLE001
+                res.fail("C13.scale.train-values", base_cls + ":raises-" + type(e).__name__, wit("C13.scale.train-values"),
+                         f"{type(e).__name__}: {e}")
+                continue
+            I, I2, names = X, Y, [f"column {j}" for j in range(X.shape[1])]
+        else:
+            outer, inner = c["outer"], c["inner"]
+            df, df_new = pd.DataFrame({"x": c["x"]}), pd.DataFrame({"x": c["x_new"]})
+            ctx_train = {"X": np.array(c["X"]), "pdX": pd.DataFrame(np.array(c["X"]))}
+            ctx_new = {"X": np.array(c["Y"]), "pdX": pd.DataFrame(np.array(c["Y"]))}
+            formula = outer.format(inner) + " - 1"
+            key = ("multi-formula", formula, repr(c["x"]), repr(c["X"]) if inner in ("X", "pdX") else "")
+            res.case(key, True, {"formula": formula, "n": len(c["x"])})
+            inner_tag = inner.split("(")[0]
+            base_cls = f"multi-column:{outer.format(inner_tag)}"
+
+            def wit(clause):
+                return {"formula": formula, "x": c["x"], "x_new": c["x_new"],
+                        "code": code(MULTI_FORMULA_CODE.format(helpers=helpers, x=fl(c["x"]), x_new=fl(c["x_new"]),
+                                                               X=repr(c["X"]), Y=repr(c["Y"]), inner=inner, outer=outer,
+                                                               ddof=ddof, centered=centered, scaled=scaled, clause=clause))}
+            try:
+                with quiet_numpy():
+                    if inner in ("X", "pdX"):  # the context matrix itself
+                        I, I2 = np.array(c["X"], dtype=float), np.array(c["Y"], dtype=float)
+                    else:
+                        mi = model_matrix(inner + " - 1", df, context=ctx_train)
+                        I = np.asarray(mi, dtype=float)
+                        I2 = np.asarray(mi.model_spec.get_model_matrix(df_new, context=ctx_new), dtype=float)
+            except Exception as e:  # noqa: BLE001 - the inner expression alone fails: nothing to standardize, not judged
+                res.stats[("inner-failed", f"{inner} [{type(e).__name__}]")] += 1
+                continue
+            try:
+                with quiet_numpy():
+                    mo = model_matrix(formula, df, context=ctx_train)
+                    R = np.asarray(mo, dtype=float)
+                    R2 = np.asarray(mo.model_spec.get_model_matrix(df_new, context=ctx_new), dtype=float)
+                names = list(mo.columns)
+            except Exception as e:  # noqa: BLE001
+                res.fail("C13.scale.train-values", base_cls + ":raises-" + type(e).__name__, wit("C13.scale.train-values"),
+                         f"{formula}: {type(e).__name__}: {e}"[:600])
+                continue
+        if R.shape != I.shape or R2.shape != I2.shape:
+            res.fail("C13.scale.train-values", base_cls + ":shape", wit("C13.scale.train-values"),
+                     f"output shapes {R.shape}, {R2.shape} for inputs {I.shape}, {I2.shape}")
+            continue
+        reported = set()
+        for j in range(I.shape[1]):
+            for clause, tag, detail in _column_failures(I[:, j].tolist(), I2[:, j].tolist(), R[:, j], R2[:, j], centered,
+                                                        scaled, ddof):
+                if clause not in reported:
+                    reported.add(clause)
+                    res.fail(clause, base_cls + tag, wit(clause), f"{names[j]}: {detail}")
+    return res.pack()
+
 # ------------------------------------------------------------------------------------------
 # poly
 # ------------------------------------------------------------------------------------------
@@ -805,6 +1037,24 @@ def run_bounded(ctx):
             for f, ddof, scaled, name in forms:
                 fcases.append(dict(x=x.tolist(), y=y.tolist(), formula=f + " - 1", ddof=ddof, scaled=scaled, name=name))
         merge(b, rep, pmap(_formula_worker, chunked(fcases, 16)))
+        rep.close()
+
+    with ctx.bounded(
+        "scale-multi-column",
+        rule="scale/center/standardize on several columns at once: 2-D arrays (C and Fortran order) and data frames "
+             "called directly, and inside formulas on a context matrix X / data frame and on dict- or 2-D-valued inner "
+             "transforms (poly raw / orthogonal, bs, cr, cc); the single-vector contract is asserted for EVERY column "
+             "(inner columns = the inner expression materialized on its own, replayed on the new rows); distinct = "
+             "(function or formula, flags, container, data)",
+        bound="%d direct matrices (2..4 columns, n 2..50, independent magnitudes 1e-6..1e6) + %d formulas over 6 outer x 8 "
+              "inner expressions" % ((3000, 960) if thorough else (300, 96)),
+    ) as b:
+        rep = Reporter(ctx, b)
+        mstats = Counter()
+        merge(b, rep, pmap(_multi_worker, chunked(_multi_cases(rng, *((3000, 960) if thorough else (300, 96))), 16)), mstats)
+        inner_failed = sorted(k[1] for k in mstats if k[0] == "inner-failed")
+        if inner_failed:
+            ctx.notes.append(f"bounded:scale-multi-column: inner expressions that failed on their own (not judged): {inner_failed}")
         rep.close()
 
     # ---- poly
